@@ -42,6 +42,7 @@ func init() {
 			{Name: "dialer-protocol-refusal-then-takeover", Mode: "enum", Reset: kit.ResetGlobals, Cfg: vsched.Config{RandFree: true}, Body: protocolRefusal,
 				NeedCounters: []string{"redial-after-protocol-refusal", "took-over-after-first-peer-left"}},
 			{Name: "dialer-close-during-dial", Mode: "sched", Bound: map[string]int{"quick": 2, "thorough": 3}[tier], Reset: kit.ResetGlobals, Body: closeDuringDial},
+			{Name: "dialed-connection-lost-while-attaching", Mode: "sched", Bound: map[string]int{"quick": 2, "thorough": 3}[tier], Reset: kit.ResetGlobals, Body: lostWhileAttaching},
 			{Name: "socket-close-vs-new-dialer", Mode: "sched", Bound: map[string]int{"quick": 2, "thorough": 3}[tier], Reset: kit.ResetGlobals, Body: closeVsNewDialer},
 		}
 	})
@@ -364,6 +365,69 @@ func closeDuringDial() {
 	_ = s.Close()
 }
 
+// lostWhileAttaching: the peer drops a dialed connection at some point while the core is still
+// attaching it (before, during or after the protocol was told).  Whatever the interleaving, the
+// dialer connects again after its reconnect time, that connection attaches (a one-peer pattern
+// must not be left believing it still has the lost peer) and traffic flows.
+func lostWhileAttaching() {
+	s, err := pair.NewSocket()
+	if err != nil {
+		kit.Failf("setup", "NewSocket: %v", err)
+	}
+	attached, detached := 0, 0
+	s.SetPipeEventHook(func(ev mangos.PipeEvent, p mangos.Pipe) {
+		switch ev {
+		case mangos.PipeEventAttached:
+			attached++
+		case mangos.PipeEventDetached:
+			detached++
+		}
+	})
+	_ = s.SetOption(mangos.OptionReconnectTime, 100*time.Millisecond)
+	_ = s.SetOption(mangos.OptionMaxReconnectTime, 100*time.Millisecond)
+	ep := vt.Get("lwa")
+	ep.Script(vt.DialOK)
+	dropper := kit.Start("peer-drops", func() (interface{}, error) {
+		for ep.NumPipes() == 0 {
+			kit.Yield()
+		}
+		ep.PipeAt(0).DropNow()
+		return nil, nil
+	})
+	dc := kit.Start("Dial", func() (interface{}, error) {
+		return nil, s.DialOptions("vt://lwa", map[string]interface{}{mangos.OptionDialAsynch: true})
+	})
+	kit.Quiesce()
+	if !dc.Done() || dc.Err != nil || !dropper.Done() {
+		kit.Failf("setup", "Dial done=%v %s dropper done=%v", dc.Done(), kit.ErrName(dc.Err), dropper.Done())
+	}
+	kit.Sleep(500 * time.Millisecond)
+	kit.Quiesce()
+	n := ep.NumPipes()
+	if n < 2 {
+		kit.Failf("dialer-gave-up", "the first connection was lost while it was being attached; 500ms later (ReconnectTime 100ms) no further connection was made")
+	}
+	last := ep.PipeAt(n - 1)
+	if !last.Alive() {
+		kit.Failf("reconnect-refused", "the first connection was lost while it was being attached; the dialer made %d further connection(s) and none stayed (attached %d, detached %d): the socket still counts the lost connection as its peer", n-1, attached, detached)
+	}
+	sc := kit.Start("Send", func() (interface{}, error) { return nil, kit.SendBytes(s, []byte("resumed")) })
+	kit.Quiesce()
+	if !sc.Done() || sc.Err != nil || last.NumSent() != 1 {
+		kit.Failf("traffic-not-resumed", "after the reconnect Send: done=%v %s, the new peer has %d message(s)", sc.Done(), kit.ErrName(sc.Err), last.NumSent())
+	}
+	if attached-detached != 1 {
+		kit.Failf("lifecycle-unbalanced", "one connection is attached now, the hook saw %d Attached and %d Detached", attached, detached)
+	}
+	kit.Observe("pipes=%d attached=%d", n, attached)
+	kit.Must("Close", func() { _ = s.Close() })
+	kit.Sleep(time.Minute)
+	kit.Quiesce()
+	if bad := kit.Census(); bad != "" {
+		kit.Failf("leak-after-close", "after the lost-while-attaching history and Close: %s", bad)
+	}
+}
+
 // closeVsNewDialer: the socket is closed while another goroutine creates and starts a dialer
 // (NewDialer with options, then Dial).  Whichever way the race goes, once both have returned no
 // connection attempt is ever started: either the dialer was never handed out / refuses to dial,
@@ -494,4 +558,5 @@ func protocolRefusal() {
 var RaceBodies = map[string]func(){
 	"c14-close-during-dial": closeDuringDial,
 	"c14-close-vs-new-dialer": closeVsNewDialer,
+	"c14-lost-while-attaching": lostWhileAttaching,
 }
